@@ -94,6 +94,18 @@ pub mod dev {
         FORCE_SYNC_PATH.load(Ordering::SeqCst)
     }
 
+    /// H11: while set, the periodic flush coordinator skips its ticks, so that every pass over a
+    /// shard is one the harness asked for (deterministic device-call numbering).
+    static PERIODIC_FLUSH_PAUSED: AtomicBool = AtomicBool::new(false);
+
+    pub fn set_periodic_flush_paused(on: bool) {
+        PERIODIC_FLUSH_PAUSED.store(on, Ordering::SeqCst);
+    }
+
+    pub(crate) fn periodic_flush_paused() -> bool {
+        PERIODIC_FLUSH_PAUSED.load(Ordering::SeqCst)
+    }
+
     fn observer() -> Option<Arc<dyn Observer>> {
         OBSERVER.read().unwrap().clone()
     }
